@@ -235,10 +235,10 @@ class G:
                     g = f' if {self.cond(0)}'
                     self.tags.add('case-guard')
                 out += [f'    case {v}{g}:'] + ['        ' + l for l in self.block(d, depth - 1)]
-            if not (self.wild and r.chance(1, 3)):
+            if not r.chance(1, 3 if self.wild else 4):
                 out += ['    case _:'] + ['        ' + l for l in self.block(d, depth - 1)]
             else:
-                self.tags.add('match-no-default')
+                self.tags.add('match-no-default')       # emitted as `default:;` since /repo b2612d8: part of the proved fragment
             self.tags.add('match')
             return out
         return self.assign_out(d)
